@@ -9,14 +9,27 @@ from fractions import Fraction
 
 
 def _mkey(a):
-    return repr(a)
+    try:
+        return _MKEY_CACHE[a]
+    except KeyError:
+        r = repr(a)
+        if len(_MKEY_CACHE) < 200000:
+            _MKEY_CACHE[a] = r
+        return r
+    except TypeError:
+        return repr(a)
+
+
+_MKEY_CACHE = {}
 
 
 class Poly:
-    __slots__ = ("t",)
+    __slots__ = ("t", "_k", "_h")
 
     def __init__(self, t=None):
         self.t = {k: v for k, v in (t or {}).items() if v != 0}
+        self._k = None
+        self._h = None
 
     @staticmethod
     def const(n):
@@ -61,13 +74,17 @@ class Poly:
         return s
 
     def key(self):
-        return tuple(sorted(((tuple(_mkey(a) for a in k), v) for k, v in self.t.items())))
+        if self._k is None:
+            self._k = tuple(sorted(((tuple(_mkey(a) for a in k), v) for k, v in self.t.items())))
+        return self._k
 
     def __eq__(self, o):
         return isinstance(o, Poly) and self.t == o.t
 
     def __hash__(self):
-        return hash(self.key())
+        if self._h is None:
+            self._h = hash(self.key())
+        return self._h
 
     def subst(self, mapping):
         """mapping: atom -> Poly"""
@@ -191,41 +208,65 @@ def _nonneg_syntactic(p):
     return all(v >= 0 for v in p.t.values())
 
 
-def prove_ge0(p, facts, depth=3, _seen=None):
+class _Budget:
+    def __init__(self, n):
+        self.n = n
+
+
+def prove_ge0(p, facts, depth=3, _seen=None, _budget=None):
     """Try to prove p >= 0 given facts (list of (rel, Poly)); atoms are >= 0."""
     if _nonneg_syntactic(p):
         return True
     if depth == 0:
+        return False
+    if _budget is None:
+        _budget = _Budget(1500)
+    _budget.n -= 1
+    if _budget.n <= 0:
         return False
     _seen = _seen or set()
     k = p.key()
     if k in _seen:
         return False
     _seen = _seen | {k}
+    patoms = p.atoms()
+    neg_monos = [m for m, v in p.t.items() if v < 0]
     cands = []
     for rel, f in facts:
+        if not f.t:
+            continue
         if rel == ">=":
             cands.append(f)
         elif rel == "==":
             cands.append(f)
             cands.append(-f)
-    # p - c*f >= 0 with f >= 0  =>  p >= 0 ; c may be a constant or a single atom
+    # only facts that can cancel a negative monomial of p are useful: f must have a positive coefficient on an
+    # atom occurring in a negative monomial of p
+    negatoms = set()
+    for m in neg_monos:
+        negatoms.update(m)
+    useful = []
     for f in cands:
-        if not f.t:
-            continue
+        hit = any(v < 0 and (not m or (set(m) & negatoms) or not negatoms) for m, v in f.t.items())
+        if () in f.t and f.t[()] < 0 and any(m == () for m in neg_monos):
+            hit = True
+        if hit or any(v < 0 and m in p.t and p.t[m] < 0 for m, v in f.t.items()):
+            useful.append(f)
+    # p - c*f >= 0 with f >= 0  =>  p >= 0 ; c may be a constant or a single atom
+    for f in useful:
         for c in (1, 2):
             q = p - f * Poly.const(c)
-            if len(q.t) <= len(p.t) + 1 and prove_ge0(q, facts, depth - 1, _seen):
+            if len(q.t) <= len(p.t) + 1 and prove_ge0(q, facts, depth - 1, _seen, _budget):
                 return True
         # multiply by an atom occurring in p (for products like q*N)
-        for a in p.atoms():
+        for a in patoms:
             q = p - f * Poly.atom(a)
-            if len(q.t) < len(p.t) + 1 and prove_ge0(q, facts, depth - 1, _seen):
+            if len(q.t) < len(p.t) + 1 and prove_ge0(q, facts, depth - 1, _seen, _budget):
                 return True
     return False
 
 
-def prove(goal, facts):
+def prove(goal, facts, budget=1500):
     """goal: (rel, Poly) with rel in >= == !=.  Sound, incomplete."""
     rel, p = goal
     facts = list(facts)
@@ -242,18 +283,18 @@ def prove(goal, facts):
     atoms |= more
     facts = facts + axioms_for(atoms) + and1_identities(atoms)
     if rel == ">=":
-        return prove_ge0(p, facts)
+        return prove_ge0(p, facts, _budget=_Budget(budget))
     if rel == "==":
         if not p.t:
             return True
-        return prove_ge0(p, facts) and prove_ge0(-p, facts)
+        return prove_ge0(p, facts, _budget=_Budget(budget)) and prove_ge0(-p, facts, _budget=_Budget(budget))
     if rel == "!=":
         if p.is_const():
             return p.const_value() != 0
         for r2, f in facts:
             if r2 == "!=" and (f == p or f == -p):
                 return True
-        return prove_ge0(p - 1, facts) or prove_ge0(-p - 1, facts)
+        return prove_ge0(p - 1, facts, _budget=_Budget(budget)) or prove_ge0(-p - 1, facts, _budget=_Budget(budget))
     raise ValueError(rel)
 
 
